@@ -43,8 +43,11 @@ enum Part {
     Hex(Vec<u8>),
     Fill(usize, u64),
     Ascii(usize, u64),
+    /// n bytes cycling through a non-empty block (Coq `C10.rep`)
+    Rep(Vec<u8>, usize),
 }
-/// concatenation of parts: `h:<hex>` | `f:<len>:<seed>` (Base.fill) | `a:<len>:<seed>` (fill, each byte mod 128), joined by `+`
+/// concatenation of parts: `h:<hex>` | `f:<len>:<seed>` (Base.fill) | `a:<len>:<seed>` (fill, each byte mod 128)
+/// | `r:<block hex>:<len>` (block repeated up to len bytes), joined by `+`
 #[derive(Clone, Debug, Default)]
 struct Bx(Vec<Part>);
 
@@ -59,6 +62,7 @@ impl Bx {
                 Part::Hex(v) => out.extend_from_slice(v),
                 Part::Fill(n, s) => out.extend(fill(*n, *s)),
                 Part::Ascii(n, s) => out.extend(fill(*n, *s).into_iter().map(|b| b % 128)),
+                Part::Rep(blk, n) => out.extend(blk.iter().cycle().take(*n)),
             }
         }
         out
@@ -74,6 +78,7 @@ impl Bx {
                 Part::Hex(v) => format!("h:{}", hex(v)),
                 Part::Fill(n, s) => format!("f:{n}:{s}"),
                 Part::Ascii(n, s) => format!("a:{n}:{s}"),
+                Part::Rep(blk, n) => format!("r:{}:{n}", hex(blk)),
             })
             .collect();
         v.join("+")
@@ -85,6 +90,12 @@ impl Bx {
                 let (k, r) = t.split_once(':').expect("part");
                 match k {
                     "h" => Part::Hex(unhex(r)),
+                    "r" => {
+                        let (blk, n) = r.split_once(':').expect("rep");
+                        let blk = unhex(blk);
+                        assert!(!blk.is_empty(), "empty block");
+                        Part::Rep(blk, n.parse().unwrap())
+                    }
                     "f" | "a" => {
                         let (n, s) = r.split_once(':').expect("recipe");
                         let (n, s) = (n.parse().unwrap(), s.parse().unwrap());
@@ -106,6 +117,7 @@ impl Bx {
                 Part::Hex(v) => coq_hex(v),
                 Part::Fill(n, s) => format!("(fill {n} {s})"),
                 Part::Ascii(n, s) => format!("(C10.ascii7 (fill {n} {s}))"),
+                Part::Rep(blk, n) => format!("(C10.rep {} {n})", coq_hex(blk)),
             })
             .collect();
         format!("({})", v.join(" ++ "))
@@ -115,7 +127,7 @@ impl Bx {
         if n <= 64 {
             Bx::hex(rng.bytes(n))
         } else {
-            Bx(vec![Part::Fill(n, rng.below(1 << 31))])
+            Bx(vec![Part::Rep(rng.bytes(61), n)])
         }
     }
 }
@@ -125,11 +137,12 @@ fn coq_digest(b: &[u8]) -> String {
     if b.len() <= 64 {
         coq_hex(b)
     } else {
-        let mut acc: u64 = 0;
+        let (mut s1, mut s2): (u128, u128) = (0, 0);
         for x in b {
-            acc = (acc * 31 + *x as u64 + 1) % 4294967291;
+            s1 += *x as u128 + 1;
+            s2 += s1;
         }
-        format!("({} ++ [{}; {}])", coq_hex(&b[..64]), b.len(), acc)
+        format!("({} ++ [{}; {}])", coq_hex(&b[..64]), b.len(), s2 * 4294967296 + s1)
     }
 }
 
@@ -565,7 +578,7 @@ fn gen_key(rng: &mut Rng) -> [u8; 32] {
 fn gen_len(rng: &mut Rng, big_ok: bool) -> usize {
     match rng.below(100) {
         0..=34 => *rng.pick(&[0usize, 1, 2, 3, 7, 8, 9, 31, 32, 33, 34, 35, 36]),
-        35..=46 if big_ok => rng.range((MAXP - 40) as u64, (MAXP + 2) as u64) as usize,
+        35..=39 if big_ok => rng.range((MAXP - 40) as u64, (MAXP + 2) as u64) as usize,
         47..=49 => rng.range(1000, 5000) as usize,
         _ => rng.below(300) as usize,
     }
@@ -596,7 +609,7 @@ fn gen_text(rng: &mut Rng, n: usize) -> Bx {
         if rest <= 64 {
             parts.push(Part::Hex(rng.bytes(rest).into_iter().map(|b| b % 128).collect()));
         } else {
-            parts.push(Part::Ascii(rest, rng.below(1 << 31)));
+            parts.push(Part::Rep(rng.bytes(61).into_iter().map(|b| b % 128).collect(), rest));
         }
     }
     Bx(parts)
@@ -696,12 +709,12 @@ fn gen_dec(rng: &mut Rng) -> Bx {
             _ => (*rng.pick(&[4u64, 6]), false),
         };
         let mut head = varint(ft, width);
-        let seed = rng.below(1 << 31);
         if asciionly {
-            return Bx(vec![Part::Hex(head), Part::Ascii(frame_len, seed)]);
+            let blk = rng.bytes(61).into_iter().map(|b| b % 128).collect();
+            return Bx(vec![Part::Hex(head), Part::Rep(blk, frame_len)]);
         }
         head.extend_from_slice(&gen_key(rng));
-        return Bx(vec![Part::Hex(head), Part::Fill(frame_len - 32, seed)]);
+        return Bx(vec![Part::Hex(head), Part::Rep(rng.bytes(61), frame_len - 32)]);
     }
     // purely random strings, first byte biased towards meaningful values
     if kind < 15 {
